@@ -22,7 +22,7 @@ PARTIAL = ('proved (Properties/C10.v, all closed under the global context): C10_
            'floating-point Lanczos meets the Ritz contract (measured), rounding (measured by prop()); H is an argument no model function returns or updates')
 ASSUMPTIONS = SR.ASSUMPTIONS
 RULE = ('Hermitian MPOs (XXZ, Ising, Bose-Hubbard, Fermi-Hubbard, random Hermitian with/without charges), L in 2..5, d >= 2, any bond profile, '
-        '1..3 sweeps, 2..6 Lanczos iterations (complete-manifold cases: enough iterations), repeated invocations; two-site with zero split tolerance; '
+        '1..3 sweeps, 2..6 Lanczos iterations (complete-manifold cases: enough iterations), repeated invocations, real-valued and complex states (real states meet complex Hermitian MPOs); two-site with zero split tolerance; '
         'non-trivial = max bond >= 2; distinct by input digest')
 IMPL_PARALLEL = True
 
@@ -37,7 +37,8 @@ def cases(rng, tier):
             L = min(L, 3)
         out.append({'kind': rng.choice(['single', 'two']), 'model': model, 'L': L, 'seed': rng.getrandbits(30),
                     'sweeps': rng.choice([1, 2, 3]), 'numiter': rng.choice([2, 3, 4, 6]), 'repeat': rng.choice([1, 1, 2]),
-                    'Dmax': rng.choice([1, 2, 3, 4]), 'complete': rng.random() < 0.3, 'scale': rng.choice([1.0, 3.0])})
+                    'Dmax': rng.choice([1, 2, 3, 4]), 'complete': rng.random() < 0.3, 'scale': rng.choice([1.0, 3.0]),
+                    'sdtype': 'real' if rng.random() < 0.35 else 'complex'})
     SR.mark_replay(out, {'quick': 24, 'thorough': 120, 'search': 0}[tier], 'sweeps')
     return out
 
@@ -58,7 +59,7 @@ def impl(case):
     rs = np.random.default_rng(case['seed'])
     H = T.hamiltonian(case['model'], case['L'], rs)
     L = H.nsites
-    psi = T.state(H, rs, Dmax=case['Dmax'], complete=case['complete'])
+    psi = T.state(H, rs, Dmax=case['Dmax'], complete=case['complete'], dtype=case.get('sdtype', 'complex'))
     psi.A[-1] = psi.A[-1] * case['scale']
     v0 = G.mps_dense(psi.A)
     n0 = float(np.linalg.norm(v0))
@@ -144,8 +145,8 @@ def coq(case, r):
 def klass(case, r):
     if 'skip' in r or 'error' in r:
         return case['kind'] + '/' + ('skip' if 'skip' in r else 'error')
-    return '%s/%s/L%d/%s%s' % (case['kind'], case['model'], case['L'], 'complete' if case['complete'] else 'it%d' % case['numiter'],
-                                 '/replay' if r['runs'][0]['numeric'] else '')
+    return '%s/%s/L%d/%s%s%s' % (case['kind'], case['model'], case['L'], 'complete' if case['complete'] else 'it%d' % case['numiter'],
+                                   '/real' if case.get('sdtype') == 'real' else '', '/replay' if r['runs'][0]['numeric'] else '')
 
 
 def nontrivial(case, r):
